@@ -221,7 +221,8 @@ func (h *FBDNSDB) ServeDNSWithRCODE(ctx context.Context, w dns.ResponseWriter, r
 	}
 
 	if h.cacheConfig.Enabled {
-		cacheKey = fmt.Sprintf("%.3d%.3d%.3d%s", loc.LocID, state.QType(), state.QClass(), state.Name())
+		// fields are delimited: types and classes above 999 print more than three digits
+		cacheKey = fmt.Sprintf("%.3d|%d|%d|%s", loc.LocID, state.QType(), state.QClass(), state.Name())
 		if v, ok := h.lru.Get(cacheKey); ok {
 			t := v.(cacheEntry).expiration
 			if t < time.Now().Unix() {
